@@ -174,7 +174,7 @@ Lex(d) == LET n == Norm(d)
           IN IF n.ex >= 0 THEN sg \o Chars(n.co) \o Rep("0", n.ex)
              ELSE LET k == -n.ex IN
                   IF L > k THEN sg \o Chars(SubSeq(n.co, 1, L - k)) \o <<".">> \o Chars(SubSeq(n.co, L - k + 1, L))
-                  ELSE sg \o <<"0", ".">> \o Rep("0", k - L + 1) \o Chars(n.co)
+                  ELSE sg \o <<"0", ".">> \o Rep("0", k - L) \o Chars(n.co)
 
 \* xsd:decimal lexical space: (+|-)? (digits (. digits*)? | . digits+)
 DecParse(cs) ==
